@@ -136,6 +136,7 @@ def crash_run(
     play: Callable[[World, dict[str, Any]], None] | None = None,
     ref_tag: str = "",
     post: Callable[[World, dict[str, Any], Any], tuple[str, Any] | None] | None = None,
+    held_lock: bool = False,
 ) -> bool:
     """Kill the worker at durable commit number k1 (and the restarted worker at its commit number
     k2), restart (all in-memory state dropped), lock expiry, recovery sweep(s), drain; compare with
@@ -179,7 +180,9 @@ def crash_run(
                     crashes += 1
                 HOOKS.on_commit = None
                 if crashes:
-                    w.restart()
+                    # held_lock: another worker takes over at once - the dead worker's queue lock still holds and its
+                    # un-acked message comes back only after everything else has been handled
+                    w.restart(expire_locks=not held_lock)
                     state["client_commits"] = 0
                     if k2 is not None:
                         HOOKS.on_commit = hook_factory(k2)
